@@ -480,3 +480,329 @@ Section Dom.
       + rewrite andb_false_r. apply not_true_is_false. intros Hv. rewrite (S4 eq_refl rho Hv) in Hrc. discriminate.
   Qed.
 End Dom.
+
+(* ================================================================== the subs visitor *)
+Lemma mapM_rel : forall (V : Type) (f : expr -> res expr) (ok : expr -> bool)
+    (ev : env -> expr -> V) (U : env -> env) l l',
+  (forall x y, In x l -> f x = Ok y -> ok y = true /\ forall rho, ev rho y = ev (U rho) x) ->
+  mapM f l = Ok l' ->
+  forallb ok l' = true /\ forall rho, map (ev rho) l' = map (ev (U rho)) l.
+Proof.
+  intros V f ok ev U. induction l as [|x l IH]; intros l' H; cbn [mapM].
+  - intros E. injection E as <-. split; reflexivity.
+  - destruct (f x) as [y| | |] eqn:Fx; cbn [bind]; try discriminate.
+    destruct (mapM f l) as [ys| | |] eqn:Fl; cbn [bind]; try discriminate.
+    intros E. injection E as <-.
+    destruct (H x y (or_introl eq_refl) Fx) as [O1 E1].
+    destruct (IH ys (fun a b Ha => H a b (or_intror Ha)) eq_refl) as [O2 E2].
+    split; [cbn [forallb]; rewrite O1, O2; reflexivity|].
+    intros rho. cbn [map]. rewrite E1, E2. reflexivity.
+Qed.
+
+Lemma forallb_of_map : forall (A : Type) (p : A -> bool) l, forallb p l = forallb (fun b => b) (map p l).
+Proof. induction l; cbn; auto. rewrite IHl. reflexivity. Qed.
+Lemma existsb_of_map : forall (A : Type) (p : A -> bool) l, existsb p l = existsb (fun b => b) (map p l).
+Proof. induction l; cbn; auto. rewrite IHl. reflexivity. Qed.
+
+Lemma formula_is_boolean : forall e, formula e = true -> is_boolean e = true.
+Proof.
+  destruct e; try discriminate; cbn [formula]; rewrite ?andb_true_iff; intros H.
+  - destruct H as [H _]. apply N.eqb_eq in H. subst. reflexivity.
+  - destruct H as [[H _] _]. apply mem_rel_codes in H. destruct H as [->|[->|[->| ->]]]; reflexivity.
+  - destruct H as [H _]. rewrite !orb_true_iff, !N.eqb_eq in H. destruct H as [[->| ->]| ->]; reflexivity.
+  - destruct H as [[H _] _]. apply N.eqb_eq in H. subst. reflexivity.
+  - reflexivity.
+Qed.
+
+Lemma set_ok_is_set : forall e, set_ok e = true -> is_set e = true.
+Proof.
+  destruct e; try discriminate; cbn [set_ok]; rewrite ?andb_true_iff; intros H.
+  - destruct H as [H _]. apply N.eqb_eq in H. subst. reflexivity.
+  - reflexivity.
+  - rewrite orb_true_iff, !N.eqb_eq in H. destruct H as [->| ->]; reflexivity.
+Qed.
+
+Section Node.
+  Variables AND OR : list expr -> res expr.
+  Hypothesis HAND : AND_spec AND.
+  Hypothesis HOR : OR_spec OR.
+  Variable nm : list N.
+  Variable v : expr.
+  Hypothesis Hv : term_ok v = true.
+  Variable REC : expr -> res expr.
+  Hypothesis HREC : forall e r, REC e = Ok r -> P3 nm v e r.
+
+  Let U (rho : env) : env := upd rho nm (evalT rho v).
+
+  Lemma rec_formulas : forall l l', forallb formula l = true -> mapM REC l = Ok l' ->
+    forallb formula l' = true /\ forall rho, map (evalB rho) l' = map (evalB (U rho)) l.
+  Proof.
+    intros l l' Hl. apply mapM_rel. intros x y Hx Hy.
+    destruct (HREC x y Hy) as [_ [_ H]]. apply H. eapply forallb_In; eauto.
+  Qed.
+
+  Lemma rec_terms : forall l l', forallb term_ok l = true -> mapM REC l = Ok l' ->
+    forallb term_ok l' = true /\ forall rho, map (evalT rho) l' = map (evalT (U rho)) l.
+  Proof.
+    intros l l' Hl. apply mapM_rel. intros x y Hx Hy.
+    destruct (HREC x y Hy) as [H _]. apply H. eapply forallb_In; eauto.
+  Qed.
+
+  Lemma subs_node_sound : forall e r, e <> ESym nm ->
+    subs_node AND OR REC e = Ok r -> P3 nm v e r.
+  Proof.
+    intros e r Hne H. unfold P3. destruct e; cbn [subs_node] in H; try discriminate H.
+    - (* ENum *)
+      assert (r = ENum n) by (destruct n; try discriminate H; injection H as <-; reflexivity). subst r.
+      split; [|split]; try discriminate. intros Ht. split; auto.
+    - (* ESym *)
+      injection H as <-. split; [|split]; try discriminate. intros _. split; auto.
+      intros rho. cbn [evalT]. unfold U. rewrite upd_other; auto. intros ->. apply Hne. reflexivity.
+    - (* EDummy *) split; [|split]; discriminate.
+    - (* EConst *) split; [|split]; discriminate.
+    - (* EF1 *)
+      split; [|split]; try discriminate. intros He. cbn [formula] in He. rewrite andb_true_iff in He.
+      destruct He as [Hc Ha]. rewrite Hc in H.
+      destruct (REC e) as [a'| | |] eqn:Ra; cbn [bind] in H; try discriminate H.
+      destruct (HREC e a' Ra) as [_ [_ Hf]]. destruct (Hf Ha) as [Fa' Ea'].
+      rewrite (formula_is_boolean _ Fa') in H. injection H as <-.
+      destruct (lnot_sound a' Fa') as [Fn En]. split; auto. intros rho. rewrite En, Ea'. reflexivity.
+    - (* EF2 *)
+      split; [|split]; try discriminate. intros He. cbn [formula] in He. rewrite !andb_true_iff in He.
+      destruct He as [[Hc Ha] Hb]. rewrite Hc in H.
+      destruct (REC e1) as [a'| | |] eqn:Ra; cbn [bind] in H; try discriminate H.
+      destruct (REC e2) as [b'| | |] eqn:Rb; cbn [bind] in H; try discriminate H.
+      destruct (HREC e1 a' Ra) as [Ta _]. destruct (Ta Ha) as [Fa' Ea'].
+      destruct (HREC e2 b' Rb) as [Tb _]. destruct (Tb Hb) as [Fb' Eb'].
+      destruct (expr_eqb a' e1 && expr_eqb b' e2) eqn:Eq.
+      + injection H as <-. rewrite andb_true_iff in Eq. destruct Eq as [Q1 Q2].
+        apply expr_eqb_term in Q1; auto. apply expr_eqb_term in Q2; auto. subst a' b'.
+        split; [apply formula_rel; auto|]. intros rho. cbn [evalB]. rewrite <- Ea', <- Eb'. reflexivity.
+      + destruct (rel_create_sound code a' b' r Hc Fa' Fb' H) as [F E]. split; auto.
+        intros rho. rewrite E, Ea', Eb'. reflexivity.
+    - (* EFN *)
+      destruct (code =? TC_And) eqn:C1; [|destruct (code =? TC_Or) eqn:C2;
+        [|destruct (code =? TC_Xor) eqn:C3; [|destruct (code =? TC_FiniteSet) eqn:C4; [|discriminate H]]]].
+      + apply N.eqb_eq in C1. subst code. split; [|split]; try discriminate. intros He.
+        pose proof (formula_children _ _ He) as Hl.
+        destruct (mapM REC args) as [l'| | |] eqn:Rl; cbn [bind] in H; try discriminate H.
+        destruct (rec_formulas args l' Hl Rl) as [Fl' El'].
+        destruct (forallb is_boolean l'); [|discriminate H].
+        assert (Fs : forallb formula (set_of_list l') = true)
+          by (rewrite forallb_set_of_list; auto using forallb_formula_frag).
+        destruct (HAND _ _ Fs H) as [F E]. split; auto. intros rho.
+        rewrite E, forallb_set_of_list by auto using forallb_formula_frag.
+        rewrite evalB_And, (forallb_of_map _ (evalB rho)), (forallb_of_map _ (evalB (U rho))), El'. reflexivity.
+      + apply N.eqb_eq in C2. subst code. split; [|split]; try discriminate. intros He.
+        pose proof (formula_children _ _ He) as Hl.
+        destruct (mapM REC args) as [l'| | |] eqn:Rl; cbn [bind] in H; try discriminate H.
+        destruct (rec_formulas args l' Hl Rl) as [Fl' El'].
+        destruct (forallb is_boolean l'); [|discriminate H].
+        assert (Fs : forallb formula (set_of_list l') = true)
+          by (rewrite forallb_set_of_list; auto using forallb_formula_frag).
+        destruct (HOR _ _ Fs H) as [F E]. split; auto. intros rho.
+        rewrite E, existsb_set_of_list by auto using forallb_formula_frag.
+        rewrite evalB_Or, (existsb_of_map _ (evalB rho)), (existsb_of_map _ (evalB (U rho))), El'. reflexivity.
+      + apply N.eqb_eq in C3. subst code. split; [|split]; try discriminate. intros He.
+        pose proof (formula_children _ _ He) as Hl.
+        destruct (mapM REC args) as [l'| | |] eqn:Rl; cbn [bind] in H; try discriminate H.
+        destruct (rec_formulas args l' Hl Rl) as [Fl' El'].
+        destruct (forallb is_boolean l'); [|discriminate H]. injection H as <-.
+        destruct (logical_xor_sound l' Fl') as [F E]. split; auto. intros rho.
+        rewrite E, evalB_Xor, El'. reflexivity.
+      + apply N.eqb_eq in C4. subst code. split; [|split]; try discriminate. intros He.
+        cbn [set_ok] in He. rewrite andb_true_iff in He. destruct He as [_ Hl].
+        destruct (mapM REC args) as [l'| | |] eqn:Rl; cbn [bind] in H; try discriminate H.
+        destruct (rec_terms args l' Hl Rl) as [Fl' El']. injection H as <-.
+        assert (Fs : forallb term_ok (set_of_list l') = true)
+          by (rewrite forallb_set_of_list; auto using forallb_terms_frag).
+        split; [apply set_ok_finiteset; auto|]. intros rho q.
+        rewrite evalS_finiteset. unfold val_in. rewrite existsb_set_of_list by auto using forallb_terms_frag.
+        cbn [evalS].
+        rewrite <- (existsb_map _ _ (evalT rho) (fun t => Qeq_bool t q)),
+                <- (existsb_map _ _ (evalT (U rho)) (fun t => Qeq_bool t q)), El'. reflexivity.
+    - (* ELex *)
+      split; [|split]; try discriminate. intros He. cbn [formula] in He. rewrite !andb_true_iff in He.
+      destruct He as [[Hc Ha] Hs]. rewrite Hc in H.
+      destruct (REC e1) as [a'| | |] eqn:Ra; cbn [bind] in H; try discriminate H.
+      destruct (REC e2) as [s'| | |] eqn:Rs; cbn [bind] in H; try discriminate H.
+      destruct (HREC e1 a' Ra) as [Ta _]. destruct (Ta Ha) as [Fa' Ea'].
+      destruct (HREC e2 s' Rs) as [_ [Ts _]]. destruct (Ts Hs) as [Fs' Es'].
+      rewrite (set_ok_is_set _ Fs') in H. cbn [negb] in H.
+      apply N.eqb_eq in Hc. subst code.
+      destruct (expr_eqb a' e1 && expr_eqb s' e2) eqn:Eq.
+      + injection H as <-. rewrite andb_true_iff in Eq. destruct Eq as [Q1 Q2].
+        apply expr_eqb_term in Q1; auto. apply expr_eqb_true in Q2; auto using set_frag. subst a' s'.
+        split; [apply formula_contains; auto|]. intros rho. cbn [evalB]. rewrite <- Es', <- Ea'. reflexivity.
+      + destruct (contains_sound a' s' r Fa' Fs' H) as [F E]. split; auto.
+        intros rho. rewrite E, Es', Ea'. reflexivity.
+    - (* EBool *)
+      injection H as <-. split; [|split]; try discriminate. intros _. split; auto.
+    - (* EInterval *)
+      injection H as <-. split; [|split]; try discriminate. intros Hs. split; auto.
+      intros rho q. cbn [set_ok] in Hs. rewrite !andb_true_iff in Hs. destruct Hs as [[H1 H2] _].
+      destruct e1; try discriminate H1. destruct e2; try discriminate H2. reflexivity.
+    - (* EAtom *)
+      injection H as <-. split; [|split]; try discriminate. intros Hs. split; auto.
+  Qed.
+End Node.
+
+(* ================================================================== the knot *)
+Lemma agg_nil_r : forall is_or x, comb is_or x (if is_or then false else true) = x.
+Proof. intros [] []; reflexivity. Qed.
+
+Theorem and_or_subs_sound : forall fuel,
+  AND_spec (and_or fuel false) /\ OR_spec (and_or fuel true) /\ SUBS_spec (subs fuel).
+Proof.
+  induction fuel as [|f [IA [IO IS]]].
+  - unfold AND_spec, OR_spec, SUBS_spec. repeat split; intros; discriminate.
+  - assert (Step : forall is_or s r, forallb formula s = true -> and_or (S f) is_or s = Ok r ->
+                   formula r = true /\ forall rho, evalB rho r = agg is_or rho s).
+    { intros is_or s r Hs. cbn [and_or].
+      pose proof (ao_collect_sound is_or s [] Hs eq_refl) as Hc.
+      destruct (ao_collect is_or s []) as [args|].
+      - destruct Hc as [Fa Ea].
+        assert (Ea' : forall rho, agg is_or rho args = agg is_or rho s).
+        { intros rho. rewrite Ea. destruct is_or; cbn [agg comb existsb forallb].
+          - apply orb_false_r.
+          - apply andb_true_r. }
+        destruct (has_compl args) eqn:Hh.
+        + intros H. injection H as <-. split; [reflexivity|]. intros rho. cbn [evalB].
+          rewrite <- Ea'. symmetry. apply has_compl_sound; auto.
+        + destruct is_or.
+          * intros H. injection H as <-. destruct (ao_finish_sound true args Fa) as [F E].
+            split; auto. intros rho. rewrite E. apply Ea'.
+          * destruct (dom_loop (and_or f false) (subs f) args args) as [o| | |] eqn:Ed;
+              cbn [bind]; try discriminate.
+            destruct o as [e|]; intros H; injection H as <-.
+            -- destruct (dom_loop_sound _ _ IA IS args args e Fa (fun x Hx => Hx) Ed) as [F E].
+               split; auto. intros rho. rewrite E. apply (Ea' rho).
+            -- destruct (ao_finish_sound false args Fa) as [F E].
+               split; auto. intros rho. rewrite E. apply Ea'.
+      - intros H. injection H as <-. split; [reflexivity|]. intros rho. cbn [evalB]. symmetry. apply Hc. }
+    split; [|split].
+    + intros s r Hs H. apply (Step false); auto.
+    + intros s r Hs H. apply (Step true); auto.
+    + intros nm v e r Hv. cbn [subs]. destruct (keyless_equiv e (ESym nm)) eqn:Ek.
+      * intros H. injection H as <-. unfold P3. split; [|split]; intros He.
+        -- apply keyless_equiv_true in Ek; auto using term_frag. subst e. split; auto.
+           intros rho. cbn [evalT]. rewrite upd_same. reflexivity.
+        -- apply keyless_equiv_true in Ek; auto using set_frag. subst e. discriminate He.
+        -- apply keyless_equiv_true in Ek; auto using formula_frag. subst e. discriminate He.
+      * intros H. eapply subs_node_sound; eauto.
+        intros ->. rewrite keyless_equiv_refl in Ek by reflexivity. discriminate.
+Qed.
+
+(* ---------- the entry points ---------- *)
+Theorem logical_and_sound : forall s r, forallb formula s = true -> logical_and s = Ok r ->
+  formula r = true /\ forall rho, evalB rho r = forallb (evalB rho) s.
+Proof. intros s r. apply (and_or_subs_sound (fuel_of s)). Qed.
+
+Theorem logical_or_sound : forall s r, forallb formula s = true -> logical_or s = Ok r ->
+  formula r = true /\ forall rho, evalB rho r = existsb (evalB rho) s.
+Proof. intros s r. apply (and_or_subs_sound (fuel_of s)). Qed.
+
+Theorem logical_nand_sound : forall s r, forallb formula s = true -> logical_nand s = Ok r ->
+  formula r = true /\ forall rho, evalB rho r = negb (forallb (evalB rho) s).
+Proof.
+  intros s r Hs. unfold logical_nand. destruct (logical_and s) as [a| | |] eqn:E; cbn [bind]; try discriminate.
+  intros H. injection H as <-. destruct (logical_and_sound s a Hs E) as [F V].
+  destruct (lnot_sound a F) as [F' V']. split; auto. intros rho. rewrite V', V. reflexivity.
+Qed.
+
+Theorem logical_nor_sound : forall s r, forallb formula s = true -> logical_nor s = Ok r ->
+  formula r = true /\ forall rho, evalB rho r = negb (existsb (evalB rho) s).
+Proof.
+  intros s r Hs. unfold logical_nor. destruct (logical_or s) as [a| | |] eqn:E; cbn [bind]; try discriminate.
+  intros H. injection H as <-. destruct (logical_or_sound s a Hs E) as [F V].
+  destruct (lnot_sound a F) as [F' V']. split; auto. intros rho. rewrite V', V. reflexivity.
+Qed.
+
+Theorem subs_sound : forall fuel nm v e r, formula e = true -> term_ok v = true ->
+  subs fuel (ESym nm) v e = Ok r ->
+  formula r = true /\ forall rho, evalB rho r = evalB (upd rho nm (evalT rho v)) e.
+Proof.
+  intros fuel nm v e r He Hv H. destruct (and_or_subs_sound fuel) as [_ [_ IS]].
+  destruct (IS nm v e r Hv H) as [_ [_ Hf]]. auto.
+Qed.
+
+(* ================================================================== piecewise *)
+Lemma evalPw_app : forall rho l1 l2,
+  evalPw rho (l1 ++ l2) = match evalPw rho l1 with Some q => Some q | None => evalPw rho l2 end.
+Proof.
+  induction l1 as [|[e c] l1 IH]; intros l2; cbn [app evalPw]; auto.
+  destruct (evalB rho c); auto.
+Qed.
+
+Lemma evalPw_none : forall rho l c, evalPw rho l = None -> In c (map snd l) -> evalB rho c = false.
+Proof.
+  induction l as [|[e c'] l IH]; intros c H Hc; cbn [map In evalPw snd] in *; [tauto|].
+  destruct (evalB rho c') eqn:E; [discriminate|]. destruct Hc as [<-|Hc]; auto.
+Qed.
+
+Lemma pw_ok_app : forall l1 l2, pw_ok (l1 ++ l2) = pw_ok l1 && pw_ok l2.
+Proof. intros. unfold pw_ok. apply forallb_app. Qed.
+
+Lemma pw_loop_sound : forall vec nv conds,
+  pw_ok vec = true -> pw_ok nv = true -> forallb formula conds = true ->
+  (forall c, In c conds -> In c (map snd nv)) ->
+  pw_ok (pw_loop vec nv conds) = true /\
+  forall rho, evalPw rho (pw_loop vec nv conds) = evalPw rho (nv ++ vec).
+Proof.
+  induction vec as [|[e c] r IH]; intros nv conds Hv Hn Hc Hsub; cbn [pw_loop].
+  - split; auto. intros rho. rewrite app_nil_r. reflexivity.
+  - unfold pw_ok in Hv. cbn [forallb fst snd] in Hv. rewrite !andb_true_iff in Hv.
+    destruct Hv as [[He Hfc] Hr]. fold (pw_ok r) in Hr.
+    assert (Skip : (forall rho, evalPw rho (nv ++ (e, c) :: r) = evalPw rho (nv ++ r)) ->
+                   pw_ok (pw_loop r nv conds) = true /\
+                   forall rho, evalPw rho (pw_loop r nv conds) = evalPw rho (nv ++ (e, c) :: r)).
+    { intros Hs. destruct (IH nv conds Hr Hn Hc Hsub) as [I1 I2]. split; auto.
+      intros rho. rewrite I2, Hs. reflexivity. }
+    assert (Keep : negb (set_mem c conds) = true ->
+                   pw_ok (pw_loop r (nv ++ [(e, c)]) (set_insert c conds)) = true /\
+                   forall rho, evalPw rho (pw_loop r (nv ++ [(e, c)]) (set_insert c conds)) =
+                               evalPw rho (nv ++ (e, c) :: r)).
+    { intros _.
+      assert (Hn' : pw_ok (nv ++ [(e, c)]) = true).
+      { rewrite pw_ok_app, Hn. unfold pw_ok. cbn [forallb fst snd]. rewrite He, Hfc. reflexivity. }
+      assert (Hc' : forallb formula (set_insert c conds) = true).
+      { rewrite forallb_set_insert; auto using formula_frag, forallb_formula_frag. rewrite Hfc, Hc. reflexivity. }
+      assert (Hsub' : forall c0, In c0 (set_insert c conds) -> In c0 (map snd (nv ++ [(e, c)]))).
+      { intros c0 H0. rewrite map_app, in_app_iff. apply In_set_insert_inv in H0.
+        destruct H0 as [->|H0]; [right; left; reflexivity|left; auto]. }
+      destruct (IH _ _ Hr Hn' Hc' Hsub') as [I1 I2]. split; auto.
+      intros rho. rewrite I2, <- app_assoc. reflexivity. }
+    assert (Dup : negb (set_mem c conds) = false ->
+                  forall rho, evalPw rho (nv ++ (e, c) :: r) = evalPw rho (nv ++ r)).
+    { rewrite negb_false_iff. intros Hm rho.
+      apply set_mem_In in Hm; auto using formula_frag, forallb_formula_frag.
+      apply Hsub in Hm. rewrite !evalPw_app. destruct (evalPw rho nv) eqn:En; auto.
+      cbn [evalPw]. rewrite (evalPw_none rho nv c En Hm). reflexivity. }
+    destruct c; try discriminate Hfc;
+      try (destruct (negb (set_mem _ conds)) eqn:Em; [apply Keep; auto|apply Skip; apply Dup; auto]).
+    destruct b.
+    + split.
+      * rewrite pw_ok_app, Hn. unfold pw_ok. cbn [forallb fst snd]. rewrite He. reflexivity.
+      * intros rho. rewrite !evalPw_app. destruct (evalPw rho nv); reflexivity.
+    + apply Skip. intros rho. rewrite !evalPw_app. destruct (evalPw rho nv); reflexivity.
+Qed.
+
+Theorem piecewise_sound : forall vec, pw_ok vec = true ->
+  match piecewise vec with
+  | Ok r => forall rho, evalV rho r = evalPw rho vec
+  | ErrExn c => c = EXN_DOMAIN /\ forall rho, evalPw rho vec = None
+  | _ => False
+  end.
+Proof.
+  intros vec Hv. unfold piecewise.
+  destruct (pw_loop_sound vec [] [] Hv eq_refl eq_refl (fun c H => H)) as [Hok Hev].
+  cbn [app] in Hev.
+  destruct (pw_loop vec [] []) as [|[e c] tl].
+  - split; auto. intros rho. rewrite <- Hev. reflexivity.
+  - assert (Gen : forall rho, evalV rho (EPw ((e, c) :: tl)) = evalPw rho vec)
+      by (intros rho; rewrite <- Hev; reflexivity).
+    destruct c; try exact Gen. destruct b; [|exact Gen]. destruct tl; [|exact Gen].
+    intros rho. rewrite <- Hev. unfold pw_ok in Hok. cbn [forallb fst snd] in Hok.
+    rewrite !andb_true_iff in Hok. destruct Hok as [[He _] _].
+    destruct e; try discriminate He; reflexivity.
+Qed.
